@@ -55,7 +55,7 @@ MCPack ==
   /\ \E par \in DOMAIN blocks :
        /\ blocks[par].num < MaxNum
        /\ \E p \in Masters, now \in 1..MaxNow, txs \in Bags(blocks[par].w), cord \in Ords :
-            /\ Pack(NewId, par, p, now, txs, cord)
+            /\ Pack(NewId, par, p, now, txs, cord, p)
             /\ Sane(blocks'[NewId].w)
 MCPrune == Window /\ \E b \in DOMAIN blocks : blocks[b].par = NoBlock /\ Prune(b)
 Next ==
@@ -80,7 +80,8 @@ CfgPoS0 == [auth |-> <<1, 2, 3>>, bal |-> [m \in Masters |-> 2], thr |-> 1, mbp 
 CfgPoS0s == [auth |-> <<1, 2, 3>>, bal |-> [m \in Masters |-> 2], thr |-> 1, mbp |-> 3, hay |-> TRUE, tp |-> 0, E |-> 8, per |-> 8,
              queue |-> <<1, 2, 3>>, cord |-> <<1, 2, 3>>]
 
-KindsMember == {Tx("add", 4, 0), Tx("revoke", 1, 0), Tx("revoke", 2, 0), Tx("revoke", 3, 0), Tx("mbp", 0, 2), Tx("mbp", 0, 3)}
+KindsMember == {Tx("add", 4, 0), Tx("revoke", 1, 0), Tx("revoke", 2, 0), Tx("revoke", 3, 0), Tx("mbp", 0, 2), Tx("mbp", 0, 3),
+                Tx("mbp", 0, 4), Tx("mbp", 0, 0)}
 KindsMemberQ == {Tx("add", 4, 0), Tx("revoke", 1, 0), Tx("mbp", 0, 2)}
 KindsEndorse == {Tx("thr", 0, 1), Tx("thr", 0, 2), Tx("out", 1, 0), Tx("in", 1, 0), Tx("out", 3, 0), Tx("in", 3, 0),
                  Tx("mbp", 0, 2), Tx("mbp", 0, 3)}
